@@ -1,7 +1,7 @@
 """Model side of the buffer checks: exhaustive TLC runs of specs/buffer/Buffer.tla (timed, with the
 contract monitor BufferContract composed in)."""
 
-ACTIONS = ['Submit', 'PFirst', 'PDrain', 'LoaderDone', 'PLoaded', 'GetTimeout', 'StartFunc', 'EndFunc', 'PCheck', 'Tick']
+ACTIONS = ['Submit', 'PutLands', 'PFirst', 'PDrain', 'LoaderDone', 'PLoaded', 'GetTimeout', 'StartFunc', 'EndFunc', 'PCheck', 'Tick']
 WAITS = ['WaitCall', 'WaitJoin', 'WaitKick', 'WaitRet']
 
 PLAN = {
@@ -11,9 +11,10 @@ PLAN = {
                          ('BUF_3_acf', None), ('BUF_3_cae', None), ('BUF_3_eaa_f1', None),
                          ('W_D10', 'Inv_C03'), ('W_NeverSlowLoad', 'NeverSlowLoad')]},
     'C07': {'quick': [('BUF_3_wT', None), ('BUF_2_wTF_f1', None), ('BUF_3_aaa_wT', None), ('BUF_3_cae_wF', None),
-                      ('W_NeverFlush', 'NeverFlush')],
+                      ('BUF_3_shutdown', None), ('W_NeverFlush', 'NeverFlush'), ('W_D3', 'ShutdownTerminates')],
             'thorough': [('BUF_3_wT', None), ('BUF_4_wT', None), ('BUF_2_wTF_f1', None), ('BUF_3_aaa_wT', None),
-                         ('BUF_3_cae_wF', None), ('W_NeverFlush', 'NeverFlush')]},
+                         ('BUF_3_cae_wF', None), ('BUF_3_shutdown', None), ('BUF_3_acf_shutdown', None),
+                         ('W_NeverFlush', 'NeverFlush'), ('W_D3', 'ShutdownTerminates')]},
     'C08': {'quick': [('BUF_3_d0', None), ('BUF_3_d3_f1', None), ('W_NeverBurst', 'NeverBurst'), ('W_NeverTwoCalls', 'NeverTwoCalls')],
             'thorough': [('BUF_3_d0', None), ('BUF_3_d3_f1', None), ('BUF_4_d3_f1', None), ('BUF_4_wT', None),
                          ('W_NeverBurst', 'NeverBurst'), ('W_NeverTwoCalls', 'NeverTwoCalls')]},
@@ -26,7 +27,8 @@ def model_check(ctx):
             ctx.mc('buffer', 'MC_Buffer', cfg + '.cfg', expect_violation=expect, timeout=300)
         else:
             ctx.mc('buffer', 'MC_Buffer', cfg + '.cfg', timeout=1800,
-                   require_actions=ACTIONS + (WAITS if '_w' in cfg else []))
+                   require_actions=ACTIONS + (WAITS if '_w' in cfg else [])
+                   + (['ShutdownReq', 'ShutdownEffect'] if 'shutdown' in cfg else []))
 
 
 # ---------------------------------------------------------------------------------------------
@@ -47,7 +49,7 @@ def _prep(sc, r):
     def in_scope(it):
         if it.get('submit_first'):
             return False
-        if it['op'] in ('call', 'wait'):
+        if it['op'] in ('call', 'wait', 'shutdown'):
             return True
         if it['op'] == 'await':       # an awaitable: result (or failure) after a delay on the grid
             return it.get('fail') in (None, False, True) and not (it.get('delay', 0) * 1000) % UNIT
@@ -59,7 +61,12 @@ def _prep(sc, r):
     func = sc.get('func', {})
     if func.get('durs') or func.get('fail_cancel') or (sc['timeout'] * 1000) % UNIT or (func.get('dur', 0) * 1000) % UNIT:
         return None
-    calls = [it for it in prog if it['op'] != 'wait']
+    calls = [it for it in prog if it['op'] not in ('wait', 'shutdown')]
+    has_shutdown = any(it['op'] == 'shutdown' for it in prog)
+    if has_shutdown:       # (operations scheduled at or after the shutdown instant still fire while the loop drains: out of the model)
+        ts = [it['at'] for it in prog if it['op'] == 'shutdown'][0]
+        if any(it['at'] >= ts for it in prog if it['op'] != 'shutdown'):
+            return None
     waits = [it for it in prog if it['op'] == 'wait']
     byid = {it['id']: it for it in calls}
     if not calls or len(calls) > 5 or len(waits) > 2:
@@ -71,8 +78,10 @@ def _prep(sc, r):
     wmap = {}
     ev = []
     for e in r['events']:
-        if e['e'] in ('Tick', 'Config', 'End', 'Quiescent', 'Shutdown', 'ShutdownDone'):
+        if e['e'] in ('Tick', 'Config', 'End', 'Quiescent'):
             continue
+        if e['e'] in ('Shutdown', 'ShutdownDone') and not has_shutdown:
+            continue         # (the harness closes every loop after the program: not part of the program)
         if 'st' not in e or e['t'] % UNIT:
             return None
         d = {k: v for k, v in e.items() if k != 'n' or e['e'] in ('FuncStart', 'FuncEnd')}
@@ -99,6 +108,7 @@ def _prep(sc, r):
         kinds[i] = {'call': 'call', 'map': 'empty'}.get(it['op']) or ('afail' if it.get('fail') else 'await')
         loads[i] = int(round(it.get('delay', 0) * 1000)) // UNIT if it['op'] == 'await' else 0
     return {'events': ev, 'n': len(order), 'cancel': cancel, 'kinds': kinds, 'loads': loads,
+            'shutdown': any(it['op'] == 'shutdown' for it in prog),
             'consts': {'TAU': int(sc['timeout'] * 1000) // UNIT, 'Dur': int(func.get('dur', 0) * 1000) // UNIT,
                        'FailSet': sorted(func.get('fail', [])),
                        'MaxTime': max([e['t'] for e in ev if e['e'] in ('Submit', 'WaitCall')] + [0])}}
@@ -115,7 +125,7 @@ def _one(p):
            % (p['n'], '{' + ', '.join(str(w) for w in sorted(p['cancel'])) + '}', cancel, ', '.join(str(x) for x in c['FailSet']),
               kinds, loads))
     cfg = ('INIT CInit\nNEXT CNext\nCONSTANTS\n Elems <- CElems\n TAU = %d\n Dur = %d\n FailSet <- CFail\n MaxTime = %d\n Waits <- CWaits\n CancelOf <- CCancel\n'
-           ' Foreign = FALSE\n ClearInputs = TRUE\n KindOf <- CKinds\n LoadOf <- CLoads\nCONSTRAINT Reached\nCONSTRAINT NotYetAccepted\nCHECK_DEADLOCK FALSE\n' % (c['TAU'], c['Dur'], c['MaxTime']))
+           ' Foreign = FALSE\n ClearInputs = TRUE\n KindOf <- CKinds\n LoadOf <- CLoads\n Shutdowns = %s\n CancelAware = TRUE\nCONSTRAINT Reached\nCONSTRAINT NotYetAccepted\nCHECK_DEADLOCK FALSE\n' % (c['TAU'], c['Dur'], c['MaxTime'], 'TRUE' if p.get('shutdown') else 'FALSE'))
     work = tlc.scratch('bufconf-')
     try:
         tf = _os.path.join(work, 'trace.json')
@@ -145,10 +155,12 @@ def conformance(ctx, executed, limit=40):
             todo.append(p)
     # half of the sample: programs with producers other than plain calls (shortest first within each class)
     todo.sort(key=lambda p: len(p['events']))
-    a = [p for p in todo if set(p['kinds'].values()) != {'call'}]
-    b = [p for p in todo if set(p['kinds'].values()) == {'call'}]
-    na = min(len(a), max(limit // 2, limit - len(b)))
-    todo = a[:na] + b[:limit - na]
+    c = [p for p in todo if p.get('shutdown')]
+    a = [p for p in todo if set(p['kinds'].values()) != {'call'} and not p.get('shutdown')]
+    b = [p for p in todo if set(p['kinds'].values()) == {'call'} and not p.get('shutdown')]
+    nc = min(len(c), limit // 4)
+    na = min(len(a), max((limit - nc) // 2, limit - nc - len(b)))
+    todo = c[:nc] + a[:na] + b[:limit - nc - na]
     acc = und = 0
     drift = []
     with _TPE(8) as ex:
@@ -166,7 +178,7 @@ def conformance(ctx, executed, limit=40):
                 drift.append({'matched_prefix': best - 1, 'of': n - 1, 'first_unexplained': p['events'][best - 1]})
     ctx.cov['conformance'] = {'traces_checked': len(todo), 'accepted': acc, 'drift': len(drift), 'undecided': und,
                               'drift_samples': drift[:3],
-                              'what': 'recorded executions (plain calls, awaitables with a delay / failing, empty maps + wait() on the loop thread) validated against the timed model '
+                              'what': 'recorded executions (plain calls, awaitables with a delay / failing, empty maps, wait() on the loop thread, loop shutdown) validated against the timed model '
                                       'Buffer.tla with silent processing steps; projected state (queue length, all-processed flag) compared '
                                       'at every observable event'}
     ctx.cov['conformance_divergences'] = len(drift)
